@@ -59,6 +59,8 @@ type Ctx struct {
 	boxedVars  map[types.Object]bool
 	locks      []string
 	wfDone     map[string]bool
+	declLog    []string
+	dry        bool // dry run (loop pre-pass that only registers heap sorts): obligations are dropped
 	lazyAxioms []string // stated only in queries that mention one of their function symbols
 	pcParent   map[string]string
 	pcPhi      map[string]string
@@ -113,7 +115,7 @@ func (c *Ctx) declareConst(name, srt string) {
 	if c.declared[name] {
 		return
 	}
-	c.declared[name] = true
+	c.markDeclared(name)
 	c.decls = append(c.decls, fmt.Sprintf("(declare-const %s %s)", name, srt))
 }
 
@@ -121,7 +123,7 @@ func (c *Ctx) declareFun(name string, args []string, res string) {
 	if c.declared[name] {
 		return
 	}
-	c.declared[name] = true
+	c.markDeclared(name)
 	c.decls = append(c.decls, fmt.Sprintf("(declare-fun %s (%s) %s)", name, strings.Join(args, " "), res))
 }
 
@@ -249,7 +251,7 @@ func (c *Ctx) structSort(t types.Type, u *types.Struct) string {
 	if c.declared["sort:"+name] {
 		return name
 	}
-	c.declared["sort:"+name] = true
+	c.markDeclared("sort:"+name)
 	var fs []string
 	for i := 0; i < u.NumFields(); i++ {
 		f := u.Field(i)
@@ -452,6 +454,9 @@ func (c *Ctx) strLit(s string) string {
 // obligations
 
 func (c *Ctx) oblige(st *State, class, anchor, phi, text string, pos token.Position) *Oblig {
+	if c.dry {
+		return &Oblig{ctx: c}
+	}
 	base := class + "@" + anchor
 	c.anchorCnt[base]++
 	name := c.FuncKey + "#" + base
@@ -571,4 +576,34 @@ func axiomSymbols(ax string) []string {
 		}
 	}
 	return out
+}
+
+func (c *Ctx) markDeclared(key string) {
+	c.declared[key] = true
+	c.declLog = append(c.declLog, key)
+}
+
+// mark / rollback: a dry pass may not leave declarations or assertions behind (only heap sorts, tags, literals).
+type ctxMark struct{ decls, asserts, declLog, n int }
+
+func (c *Ctx) mark() ctxMark { return ctxMark{len(c.decls), len(c.asserts), len(c.declLog), c.n} }
+
+func (c *Ctx) rollback(m ctxMark) {
+	var keepKeys []string
+	for _, k := range c.declLog[m.declLog:] {
+		if strings.HasPrefix(k, "sort:") {
+			keepKeys = append(keepKeys, k) // datatype declarations stay: registered heap sorts mention them
+			continue
+		}
+		delete(c.declared, k)
+	}
+	c.declLog = append(c.declLog[:m.declLog], keepKeys...)
+	var keepDecls []string
+	for _, d := range c.decls[m.decls:] {
+		if strings.HasPrefix(d, "(declare-datatypes") || strings.HasPrefix(d, "(declare-sort") {
+			keepDecls = append(keepDecls, d)
+		}
+	}
+	c.decls = append(c.decls[:m.decls], keepDecls...)
+	c.asserts = c.asserts[:m.asserts]
 }
